@@ -26,6 +26,12 @@ type Case struct {
 	Level   int    `json:"level"`
 	Level2  int    `json:"level2,omitempty"`
 	Choices []int  `json:"choices,omitempty"`
+	Seq     []Step `json:"seq,omitempty"` // op "mixed": a history of different operations in one process
+}
+
+type Step struct {
+	Op    string `json:"op"`
+	Level int    `json:"level"`
 }
 
 var h *hlib.H
@@ -79,6 +85,63 @@ func eval(c Case) string {
 }
 
 var hiddenState []string
+
+// firstAnswer remembers what togo/string answered the first time they were
+// evaluated in this process; every later evaluation, after whatever history,
+// must repeat it (the sweep over fresh processes ties the first answers of
+// different processes together).
+var firstAnswer = map[string]string{}
+
+// mixed runs a history of different operations and checks every answer:
+// translations against the reference table, back-translations and names
+// against their first answer, round trips against the statement.
+func mixed(c Case) {
+	var answers []string
+	x := vrt.Run(vrt.Config{Lenient: true}, func() {
+		answers = answers[:0]
+		for _, st := range c.Seq {
+			answers = append(answers, eval(Case{Op: st.Op, Level: st.Level}))
+		}
+	})
+	h.Eval(true)
+	h.AddStates(1)
+	h.AddTransitions(int64(len(c.Seq)))
+	h.AddTraces(1)
+	h.Section("mixed-history", 1)
+	if x.Failure != nil {
+		h.Violate("C20|mixed|"+x.Failure.Kind, x.Failure.String(), c)
+		return
+	}
+	for i, st := range c.Seq {
+		a := answers[i]
+		switch st.Op {
+		case "fromgo":
+			want, ok := refFromGo(sql.IsolationLevel(st.Level))
+			w := "error"
+			if ok {
+				w = fmt.Sprintf("ase=%d", int(want))
+			}
+			if a != w {
+				h.Violate("C20|fromgo|history-dependent", fmt.Sprintf("history %+v: step %d ASEIsolationLevelFromGo(%d) = %s, reference table says %s", c.Seq, i, st.Level, a, w), c)
+				return
+			}
+		case "togo", "string":
+			k := fmt.Sprintf("%s(%d)", st.Op, st.Level)
+			if f, ok := firstAnswer[k]; !ok {
+				firstAnswer[k] = a
+			} else if f != a {
+				h.Violate("C20|"+st.Op+"|history-dependent", fmt.Sprintf("history %+v: step %d %s answers %s, it answered %s when first evaluated in this process", c.Seq, i, k, a, f), c)
+				return
+			}
+		case "roundtrip":
+			if _, ok := refFromGo(sql.IsolationLevel(st.Level)); ok && sql.IsolationLevel(st.Level) != sql.LevelDefault && a != fmt.Sprintf("sql=%d", st.Level) {
+				h.Violate("C20|roundtrip|history-dependent", fmt.Sprintf("history %+v: step %d: supported level %d translated there and back gives %s", c.Seq, i, st.Level, a), c)
+				return
+			}
+		}
+	}
+	h.Outcome("mixed")
+}
 
 func explore(c Case) {
 	answers := map[string][]int{}
@@ -278,6 +341,14 @@ func main() {
 		fmt.Printf("replay: %s(%d) under order choices %v = %s\n", rc.Op, rc.Level, rc.Choices, got)
 		if rc.Op == "process-sweep" {
 			sweepProcesses()
+		} else if rc.Op == "mixed" {
+			// the first answers come from a fresh history
+			for _, st := range rc.Seq {
+				if st.Op == "togo" || st.Op == "string" {
+					mixed(Case{Op: "mixed", Seq: []Step{st}})
+				}
+			}
+			mixed(rc)
 		} else {
 			explore(rc)
 		}
@@ -320,6 +391,36 @@ func main() {
 			if h.Mine(idx) {
 				explore(Case{Op: "togo-seq", Level: a, Level2: b})
 				explore(Case{Op: "string-seq", Level: a, Level2: b})
+			}
+		}
+	}
+	// mixed histories: every sequence of up to 3 operations over the alphabet of all
+	// translations, back-translations, names and round trips of the levels -1..8 / -1..6
+	var alpha []Step
+	for l := -1; l <= 8; l++ {
+		alpha = append(alpha, Step{"fromgo", l})
+	}
+	for l := -1; l <= 6; l++ {
+		alpha = append(alpha, Step{"togo", l}, Step{"string", l})
+	}
+	for l := 0; l <= 7; l++ {
+		alpha = append(alpha, Step{"roundtrip", l})
+	}
+	for _, a := range alpha { // fresh-history answers first
+		if a.Op == "togo" || a.Op == "string" {
+			mixed(Case{Op: "mixed", Seq: []Step{a}})
+		}
+	}
+	for i, a := range alpha {
+		for j, b := range alpha {
+			idx++
+			if !h.Mine(idx) {
+				continue
+			}
+			_, _ = i, j
+			mixed(Case{Op: "mixed", Seq: []Step{a, b}})
+			for _, c := range alpha {
+				mixed(Case{Op: "mixed", Seq: []Step{a, b, c}})
 			}
 		}
 	}
